@@ -369,10 +369,17 @@ func GetLatestBundle(repo string, stores context2.Stores) (string, error) {
 		return "", fmt.Errorf("no bundles uploaded to repo: %s", repo)
 	}
 
-	apc, err := model.GetArchivePathComponents(ks[len(ks)-1])
-	if err != nil {
-		return "", err
+	// the latest bundle is the last one that has a descriptor: the index files left behind by an
+	// interrupted upload sort after every older bundle but do not make a bundle
+	for i := len(ks) - 1; i >= 0; i-- {
+		apc, err := model.GetArchivePathComponents(ks[i])
+		if err != nil {
+			return "", err
+		}
+		if ks[i] == model.GetArchivePathToBundle(repo, apc.BundleID) {
+			return apc.BundleID, nil
+		}
 	}
 
-	return apc.BundleID, nil
+	return "", fmt.Errorf("no bundles uploaded to repo: %s", repo)
 }
